@@ -40,6 +40,7 @@ LeafTab == [
   float32    |-> FloatTab,
   float64    |-> FloatTab,
   \* complex tokens: z=(0,0) a=(1,2) b=(1,3) c=(2,0) d=(-1.5,5) zni=(0,-0) znr=(-0,0)
+  complex64  |-> << L("z", 1), L("a", 2), L("b", 3), L("c", 4), L("d", 0), Tw("zni", 1), Tw("znr", 1) >>,
   complex128 |-> << L("z", 1), L("a", 2), L("b", 3), L("c", 4), L("d", 0), Tw("zni", 1), Tw("znr", 1) >>,
   \* "" < "%%d" < "100%" < "Aa" < "BB" < "a" < "a\"\n" < "a%sb" < "b" < "é" < "\xff"   (bytewise)
   \* the typical token (index 2) contains a '%': text pasted into a format string is mangled
@@ -59,7 +60,7 @@ ZeroTwin(b) == TwinsOf(b, ZeroTok(b))[1].tok
 
 (* the table as a flat sequence, exported to the harness for its sanity check *)
 LeafExport ==
-  [i \in DOMAIN Basics |-> [kind |-> Basics[i], toks |-> LeafTab[Basics[i]]]]
+  [i \in DOMAIN AllBasics |-> [kind |-> AllBasics[i], toks |-> LeafTab[AllBasics[i]]]]
 
 \* the s-th "typical" (non-zero, canonical) token of a kind
 BaseTok(b, s) == LET c == Canon(b) IN c[2 + (s % (Len(c) - 1))].tok
